@@ -2,7 +2,7 @@
 import re
 
 from . import expr as X, flow, nullness, own, classinfo
-from .facts import walk, AnalysisBroken
+from .facts import walk, kids, AnalysisBroken
 from .report import canon
 
 NORETURN = {"libast_fatal_error"}
@@ -530,28 +530,46 @@ def _cmp_pred(cond):
     return None
 
 
-def _comp_args(f, e):
-    """(arg0, arg1) of the comparison whose result e is (call, dispatch, or local assigned from one)"""
+def _comp_args_all(f, e):
+    """[(arg0, arg1)] of every comparison whose result e can be (call, dispatch, or local assigned from them)"""
     s = X.strip(e)
     if s.get("k") == "call":
         cn = X.callee_name(s) or X.dispatch_slot(s) or ""
         if "comp" in cn or "cmp" in cn:
             a = s["ch"][1:]
             if len(a) >= 2:
-                return a[0], a[1]
+                return [(a[0], a[1])]
+        return []
+    out = []
     if s.get("k") == "ref" and s.get("rk") == "local":
         for x in walk(f.body):
             if x.get("k") == "assign" and x.get("op") == "=" and X.strip(x["ch"][0]).get("d") == s["d"]:
-                r = _comp_args(f, x["ch"][1])
-                if r:
-                    return r
+                r = _comp_args_all(f, x["ch"][1])
+                if not r:
+                    return []           # a definition that is not a comparison: not decided
+                out += r
             if x.get("k") == "decl":
                 for d in x.get("decls", ()):
                     if d["d"] == s["d"] and d.get("init") is not None:
-                        r = _comp_args(f, d["init"])
-                        if r:
-                            return r
-    return None
+                        r = _comp_args_all(f, d["init"])
+                        if not r:
+                            return []
+                        out += r
+    return out
+
+
+def _comp_args(f, e):
+    r = _comp_args_all(f, e)
+    return r[0] if r else None
+
+
+def _own_level(n):
+    """nodes of a branch that a `break` at this nesting level belongs to: nested loops and switches are not entered"""
+    yield n
+    for c in kids(n):
+        if c.get("k") in ("for", "while", "do", "switch"):
+            continue
+        yield from _own_level(c)
 
 
 def _is_probe(f, e, probes):
@@ -575,18 +593,23 @@ def ordering_sites(f):
                 probes.add(l["d"])
     out = []
 
-    def consider(cond, action, node):
-        """action: 'advance' (keep walking right) | 'stop' (give up / go left)"""
+    def consider(cond, action, node, negated=False):
+        """action: 'advance' (keep walking right) | 'stop' (give up / go left); negated: the action is taken when cond is false"""
         pr = _cmp_pred(cond)
         if pr is None:
             return
         kind, neg, e = pr
+        if negated:
+            neg = not neg
         if kind == "EQUAL":
             return
-        args = _comp_args(f, e)
-        if args is None:
+        allargs = _comp_args_all(f, e)
+        if not allargs:
             return
-        a0p, a1p = _is_probe(f, args[0], probes), _is_probe(f, args[1], probes)
+        sides = {(_is_probe(f, a[0], probes), _is_probe(f, a[1], probes)) for a in allargs}
+        if len(sides) != 1:
+            return                # the local holds comparisons with the probe on different sides: not decided here
+        a0p, a1p = next(iter(sides))
         if a0p == a1p:
             return
         # relation between element and probe when the condition holds
@@ -601,37 +624,50 @@ def ordering_sites(f):
             out.append((node, "asc"))
         else:
             out.append((node, "desc"))
+    def branch_actions(br):
+        """what taking this branch means for the walk: ['stop'] / ['advance'] / [] (nothing order-dependent recognised)"""
+        own = list(_own_level(br))
+        acts = [y.get("k") for y in own]
+        stores = [y for y in walk(br) if y.get("k") == "assign"]
+        ends = set()
+        for y in stores:
+            if y.get("op") == "=" and _is_probe(f, final_rhs(y), probes):
+                for l in store_targets(y):
+                    if l.get("k") == "member" and l.get("n") in ("head", "tail") and X.strip(l["ch"][0]).get("rk") == "param":
+                        ends.add(l["n"])
+        if "break" in acts or ("return" in acts and not stores):
+            return ["stop"]
+        if ends == {"head"}:
+            return ["stop"]         # the new node goes in front of the first element: taken when that element is greater than the probe
+        if ends == {"tail"}:
+            return ["advance"]
+        out_ = []
+        # binary search: start = mid + 1 (right) / end = mid - 1 (left)
+        for y in own:
+            if y.get("k") != "assign":
+                continue
+            r = X.strip(y["ch"][1])
+            if r.get("k") == "bin" and r.get("op") in ("+", "-") and X.const_val(r["ch"][1]) == 1:
+                out_.append("advance" if r["op"] == "+" else "stop")
+        return out_
+
     for x in walk(f.body):
         if x.get("k") in ("for", "while") and x.get("cond") is not None:
             for cj in _conjuncts(x["cond"]):
                 consider(cj, "advance", x)
         if x.get("k") == "if":
-            then = x["then"]
-            acts = [y.get("k") for y in walk(then)]
-            stores = [y for y in walk(then) if y.get("k") == "assign"]
-            ends = set()
-            for y in stores:
-                if y.get("op") == "=" and _is_probe(f, final_rhs(y), probes):
-                    for l in store_targets(y):
-                        if l.get("k") == "member" and l.get("n") in ("head", "tail") and X.strip(l["ch"][0]).get("rk") == "param":
-                            ends.add(l["n"])
-            if "break" in acts or ("return" in acts and not stores):
-                for cj in _conjuncts(x["cond"]):
-                    consider(cj, "stop", x)
-            elif ends == {"head"}:
-                # the new node goes in front of the first element: taken when that element is greater than the probe
-                for cj in _conjuncts(x["cond"]):
-                    consider(cj, "stop", x)
-            elif ends == {"tail"}:
-                for cj in _conjuncts(x["cond"]):
-                    consider(cj, "advance", x)
-            else:
-                # binary search: start = mid + 1 (right) / end = mid - 1 (left)
-                for y in stores:
-                    r = X.strip(y["ch"][1])
-                    if r.get("k") == "bin" and r.get("op") in ("+", "-") and X.const_val(r["ch"][1]) == 1:
-                        for cj in _conjuncts(x["cond"]):
-                            consider(cj, "advance" if r["op"] == "+" else "stop", x)
+            cjs = _conjuncts(x["cond"])
+            branches = [(x["then"], False)]
+            if x.get("else") is not None and len(cjs) == 1:
+                branches.append((x["else"], True))          # the else branch is taken on the negation of a single test
+            for br, negated in branches:
+                acts_ = branch_actions(br)
+                if not acts_:
+                    continue
+                for a_ in acts_:
+                    for cj in cjs:
+                        consider(cj, a_, x, negated)
+                break
     return out
 
 
